@@ -540,6 +540,47 @@ example : (∀ x ∈ binND 2 [2] ([1, 2, 1, 3] : List Rat), x ≠ 0) ∧
     binWMean 2 [1] ([3, 5] : List Rat) [1, -1] = [0] := by
   constructor <;> decide +kernel
 
+/-- **Per-axis factors** (`subsample_field(field, np.array([sx, sy]))`, D180; executed by the driver
+op `bins`): `statistic='sum'` conserves the total for any list of factors. -/
+theorem bins_sum_conserved (ss dims : List Nat) (hl : ss.length = dims.length) (v : List K)
+    (h : v.length = fineSizes ss dims) : (binNDs ss dims v).sum = v.sum :=
+  binNDs_sum ss dims hl v h
+
+/-- per-axis factors, `statistic='mean'`: the mean is conserved -/
+theorem bins_mean_conserved (ss dims : List Nat) (hl : ss.length = dims.length) (v : List K)
+    (h : v.length = fineSizes ss dims) :
+    (binMeans ss dims v).sum / (size dims : K) = v.sum / (fineSizes ss dims : K) := by
+  have : (binMeans ss dims v).sum = (binNDs ss dims v).sum / ((ss.foldr (· * ·) 1 : Nat) : K) := by
+    simp only [binMeans, div_eq_mul_inv]
+    rw [List.sum_map_mul_right]
+    simp
+  rw [this, binNDs_sum ss dims hl v h, fineSizes_eq ss dims hl]
+  push_cast
+  rw [div_div, mul_comm]
+
+/-- the binned field has one value per coarse pixel -/
+theorem bins_length (ss dims : List Nat) (hl : ss.length = dims.length) (v : List K)
+    (h : v.length = fineSizes ss dims) : (binNDs ss dims v).length = size dims :=
+  binNDs_length ss dims hl v h
+
+/-- a scalar factor is the per-axis list with that factor repeated (what `np.ones(ndim) * s` makes of it):
+the two driver ops `bin` and `bins` run the same function there -/
+theorem bins_uniform_eq_bin (s : Nat) (dims : List Nat) (v : List K) :
+    binNDs (dims.map fun _ => s) dims v = binND s dims v ∧
+    binMeans (dims.map fun _ => s) dims v = binMean s dims v := by
+  refine ⟨binNDs_replicate s dims v, ?_⟩
+  have hp : (dims.map fun _ => s).foldr (· * ·) 1 = s ^ dims.length := by
+    induction dims with
+    | nil => rfl
+    | cons n rest ih => simp only [List.map_cons, List.foldr_cons, List.length_cons, pow_succ, ih, mul_comm]
+  unfold binMeans binMean
+  rw [binNDs_replicate, hp]
+
+example : ([2, 3] : List Nat).length = ([3, 2] : List Nat).length ∧
+    ([1, 2, 3, 4, 5, 6, 7, 8, 9, 10, 11, 12, 13, 14, 15, 16, 17, 18, 19, 20, 21, 22, 23, 24, 25, 26, 27, 28, 29, 30, 31, 32, 33, 34, 35, 36] : List Rat).length
+      = fineSizes [2, 3] [3, 2] := by
+  decide
+
 /-- **Tensor components are binned independently**: binning the stacked components equals
 stacking the binned components. -/
 theorem bin_tensor_independent (s : Nat) (dims : List Nat) (comps : List (List K))
